@@ -36,6 +36,10 @@ RULE = (
     "bytes(USMSecurityParameters.decode(x)), bytes(decoded PDU) re-read by vf.ber carry the "
     "same content as x. Non-trivial: >=1 binding or a re-encoding compared; distinct by "
     "(level, value kinds+size classes, forms, list length class)."
+    " The decoded PDU CONTENT (request-id, error-status, error-index, number of bindings) is "
+    "compared with the wire as well, and a PDU rebuilt from it must - where the library can e"
+    "ncode it - carry the same content (bytes() of a decoded x690 object only replays the oct"
+    "ets it came from)."
 )
 ASSUMPTIONS = [
     "well-formed = what vf.ber's strict decoder accepts (definite lengths, <= 4 length octets)",
